@@ -6,6 +6,7 @@ import Generated.VersionGates
 import Frozen.Constants
 import Frozen.FastDivTab
 import Frozen.VersionGates
+import DracoProofs.GeneratedSeq
 /-
   C05 — existing bitstreams keep decoding to the same geometry, in the same order.
 
@@ -261,5 +262,26 @@ theorem format_constants_frozen :
     Generated.versionGates = Frozen.versionGates :=
   ⟨⟨format_constants_frozen_versions.2.2.2.2.1, format_constants_frozen_versions.2.2.2.2.2⟩,
    by decide, by decide, by decide, format_constants_frozen_fastdiv, version_gates_frozen⟩
+
+/-! ## the index width classes of the sequential connectivity coder are the source's -/
+open Generated in
+/-- `MeshSequentialDecoder::DecodeConnectivity`: the decision skeleton of its chain `if (num_points < 256) … else if
+    (num_points < (1 << 16)) … else if (num_points < (1 << 21) && bitstream_version() >= 2.2) … else …` (conditions
+    translated mechanically from clang's AST of /repo on every run, branch bodies replaced by their ordinal) selects the width
+    class of the model's `decodeSeqConnectivity` (`Generated.seqIndexWidth`, `Generated.model_chain_is_seqIndexWidth`) -/
+theorem source_seqDecIndexWidth_is_model (ver numPoints : Nat) (hv : ver < 2^16) (hn : numPoints < 2^32) :
+    MeshSequentialDecoder.DecodeConnectivity_indexWidth ver numPoints =
+      (seqIndexWidth numPoints (decide (ver < bsVersion 2 2)) : Int) :=
+  DecodeConnectivity_indexWidth_eq_model ver numPoints hv hn
+example : Generated.MeshSequentialDecoder.DecodeConnectivity_indexWidth (514 : Nat) (256 : Nat) = 1 := by
+  rw [source_seqDecIndexWidth_is_model _ _ (by decide) (by decide)]; decide
+
+open Generated in
+/-- `MeshSequentialEncoder::EncodeConnectivity`: the same for `mesh()->num_points() < 256`, `< (1 << 16)`, `< (1 << 21)` -/
+theorem source_seqEncIndexWidth_is_model (numPoints : Nat) (hn : numPoints < 2^31) :
+    MeshSequentialEncoder.EncodeConnectivity_indexWidth numPoints = (seqIndexWidth numPoints false : Int) :=
+  EncodeConnectivity_indexWidth_eq_model numPoints hn
+example : Generated.MeshSequentialEncoder.EncodeConnectivity_indexWidth (65536 : Nat) = 2 := by
+  rw [source_seqEncIndexWidth_is_model _ (by decide)]; decide
 
 end Draco.C05
